@@ -623,7 +623,7 @@ func init() {
 		ID: "C19",
 		NumBatches: func(tier string, seed int64) int {
 			if tier == "thorough" {
-				return 1024
+				return 8192
 			}
 			return 128
 		},
